@@ -1,8 +1,11 @@
 --------------------------- MODULE Trace_Classify ---------------------------
 (* Validates event logs of real connManager.handleNewTCPConn runs (scripted connection + decorated real transports).
    Events, in per-connection order (recorded under the connection's mutex):
-     Start        the case in the specification's terms (oracle side: computed from the case definition, not by the code)
-     SetDeadline  first one = HInit (must lie 5..10 s ahead of the handler's entry; 1 s slack above for scheduling delays); later ones are no-ops for the model
+     Start        the case in the specification's terms (oracle side: computed from the case definition, not by the code) and what
+                  the table holds for R when the history starts (tab)
+     NextConn     the next connection of the same history (same phantom, the table as the history left it), its case
+     Validate / SweepIdle / Retrack   a table operation between two connections, with what the REAL table holds for R afterwards
+     SetDeadline  first one = HInit (at least 5 s after the connection was created [dl], at most 10 s ahead of the call itself [ahead]: both bounds hold however late the handler is scheduled); later ones are no-ops for the model
      Send k / PeerClose / ReadTimeout|Expire        the peer / the clock
      Read n       HRead | HDrain | HRelayRead (whichever phase the handler is in)
      Verdict t r n   what transport t answered when offered n accumulated bytes: must equal Verdict(t, n)
@@ -11,23 +14,24 @@
      Return       the handler returned
      LegacyReg    a legacy (v0/v1) registration was ingested just before the connection arrived
      Swept        the expiry sweeper removed the matched registration right after the matching verdict (before MarkActive)
-     Final        what reached the covert / came back / registration state
+     Final        what reached the covert / came back / registration state (in a history: what the real table holds for R now)
    Silent steps: running out of transports (read -> drain) and the found -> relay step. *)
 EXTENDS Classify, Json, TLCExt
 TraceLog == ndJsonDeserialize("trace.ndjson")
 VARIABLE l
 tvars == <<vars, l>>
 
-Authenticated == c.ok /\ rcvd >= c.H
+Authenticated == Ent /\ rcvd >= c.H
 Unch == UNCHANGED vars
 
-NoCase == [t |-> "none", ok |-> FALSE, terr |-> FALSE, H |-> 0, pofs |-> 0, total |-> 0, occ |-> 0, reg |-> ""]
+NoCase == [t |-> "none", ok |-> FALSE, terr |-> FALSE, H |-> 0, pofs |-> 0, total |-> 0, occ |-> 0, reg |-> "", own |-> FALSE]
 TraceInit == /\ c = NoCase
              /\ phase = "returned" /\ alive = Transports /\ todo = {}
              /\ rcvd = 0 /\ sent = 0 /\ readn = 0 /\ written = 0
              /\ dlSet = FALSE /\ expired = FALSE /\ peerClosed = FALSE
              /\ matched = None /\ consumed = 0 /\ used = FALSE /\ returned = FALSE
              /\ swept = FALSE /\ regLock = "free" /\ seeded = FALSE /\ dlKnown = FALSE
+             /\ tab = "gone" /\ entitled = FALSE /\ snap = "none" /\ conns = 1
              /\ obs = [a |-> "Init"]
              /\ l = 1
 TraceStart == /\ l <= Len(TraceLog) /\ TraceLog[l].a = "Start"
@@ -37,6 +41,7 @@ TraceStart == /\ l <= Len(TraceLog) /\ TraceLog[l].a = "Start"
               /\ dlSet' = FALSE /\ expired' = FALSE /\ peerClosed' = FALSE
               /\ matched' = None /\ consumed' = 0 /\ used' = FALSE /\ returned' = FALSE
               /\ swept' = FALSE /\ regLock' = "free" /\ seeded' = FALSE /\ dlKnown' = FALSE
+              /\ tab' = TraceLog[l].tab /\ entitled' = (TraceLog[l].tab = "valid") /\ snap' = "none" /\ conns' = 1
               /\ obs' = [a |-> "Init"]
               /\ l' = l + 1
 
@@ -44,13 +49,15 @@ FinalOK(e) ==
   IF matched # None
     THEN /\ e.matched = matched /\ e.matched_reg = c.reg /\ e.used = ~swept
          /\ (e.want_n > 0 => (e.fwd_ok /\ e.reply_ok /\ e.covert_conns = 1))
+         /\ (e.tab = "" \/ e.tab = tab)
     ELSE /\ e.matched = "" /\ e.covert_conns = 0 /\ e.to_peer = 0
          /\ (c.terr \/ e.unread = 0)
+         /\ (e.tab = "" \/ e.tab = tab)
 
 TraceStep ==
   /\ l <= Len(TraceLog) /\ TraceLog[l].a # "Start" /\ l' = l + 1
   /\ LET e == TraceLog[l] IN
-     CASE e.a = "SetDeadline" -> IF phase = "init" THEN HInit /\ e.dl >= 5000 /\ e.dl <= 11000 ELSE Unch
+     CASE e.a = "SetDeadline" -> IF phase = "init" THEN HInit /\ e.dl >= 5000 /\ e.ahead <= 10000 ELSE Unch
        [] e.a = "Send"        -> Send(e.k)
        [] e.a = "PeerClose"   -> PeerClose
        [] e.a \in {"ReadTimeout", "Expire"} -> IF expired \/ matched # None THEN Unch ELSE Expire
@@ -59,13 +66,17 @@ TraceStep ==
                                  \/ (HDrain /\ obs'.a = "Read" /\ obs'.n = e.n)
                                  \/ (HRelayRead /\ obs'.n = e.n)
                                  \/ (phase \in {"offer", "found"} /\ Authenticated /\ avail >= e.n /\ readn' = readn + e.n
-                                     /\ UNCHANGED <<seeded, dlKnown, swept, regLock, c, phase, alive, todo, rcvd, sent, written, dlSet, expired, peerClosed, matched, consumed, used, returned, obs>>)
+                                     /\ UNCHANGED <<tab, entitled, snap, conns, seeded, dlKnown, swept, regLock, c, phase, alive, todo, rcvd, sent, written, dlSet, expired, peerClosed, matched, consumed, used, returned, obs>>)
        [] e.a = "Verdict"     -> HOffer(e.t) /\ obs'.r = e.r /\ obs'.n = e.n /\ (e.r = "match" => e.left = rcvd - c.H)
        [] e.a = "Write"       -> (HWrite \/ (Authenticated /\ written >= MaxW /\ Unch))
        [] e.a = "Close"       -> (phase \in {"relay", "returned"} \/ expired \/ peerClosed) /\ Unch
        [] e.a = "Return"      -> ~e.hung /\ (\/ (HRead /\ obs'.a = "Return") \/ (HDrain /\ obs'.a = "Return")
                                             \/ HSleep \/ HRelayReturn)
        [] e.a = "Swept"       -> SweepRemoves
+       [] e.a = "NextConn"    -> NextConn(e.c)
+       [] e.a = "Validate"    -> Validate /\ e.tab = tab'
+       [] e.a = "SweepIdle"   -> SweepIdle /\ e.tab = tab'
+       [] e.a = "Retrack"     -> Retrack /\ e.tab = tab'
        [] e.a = "LegacyReg"   -> IF seeded THEN Unch ELSE LegacySelect
        [] e.a = "Final"       -> returned /\ FinalOK(e) /\ Unch
        [] OTHER               -> FALSE
